@@ -109,6 +109,8 @@ pub struct Rig {
     pub steps: u64,
     pub max_cands: usize,
     pub zombie_detections: u64,
+    /// how often each clause of the model fired on the accepted path
+    pub clauses: std::collections::BTreeMap<String, u64>,
     pub budget_hit: bool,
     pub log_on: bool,
 }
@@ -142,6 +144,7 @@ impl Rig {
             steps: 0,
             max_cands: 1,
             zombie_detections: 0,
+            clauses: std::collections::BTreeMap::new(),
             budget_hit: false,
             log_on: true,
         }
@@ -361,6 +364,7 @@ impl Rig {
             bind: Bindings,
             cur: Vec<usize>,
             detections: u64,
+            clauses: Vec<String>,
         }
         // a dropped Connection future is gone from the moment it is dropped, i.e. before the
         // broker dequeues anything of this burst (what the connection queued earlier stays queued)
@@ -370,7 +374,7 @@ impl Rig {
         for c in &mut self.cands {
             c.model.unobservable = lenient.clone();
         }
-        let mut states: Vec<St> = self.cands.iter().map(|c| St { model: c.model.clone(), bind: c.bind.clone(), cur: vec![0; n], detections: 0 }).collect();
+        let mut states: Vec<St> = self.cands.iter().map(|c| St { model: c.model.clone(), bind: c.bind.clone(), cur: vec![0; n], detections: 0, clauses: Vec::new() }).collect();
         let mut last_err: Option<Mismatch> = None;
         for input in &model_inputs {
             let mut next: Vec<St> = Vec::new();
@@ -384,7 +388,8 @@ impl Rig {
                     _ => None,
                 };
                 for (m2, out) in st.model.step(&syn_input) {
-                    let mut s2 = St { model: m2, bind: st.bind.clone(), cur: st.cur.clone(), detections: st.detections };
+                    let mut s2 = St { model: m2, bind: st.bind.clone(), cur: st.cur.clone(), detections: st.detections, clauses: st.clauses.clone() };
+                    s2.clauses.extend(out.notes.iter().filter_map(|n| n.strip_prefix("clause:")).map(|x| x.to_string()));
                     s2.detections += out.notes.iter().filter(|n| n.starts_with("dropped connection")).count() as u64;
                     match match_step(&mut s2.model, &mut s2.bind, &mut s2.cur, &out, &obs, first_conn, &lenient) {
                         Ok(()) => next.push(s2),
@@ -470,6 +475,11 @@ impl Rig {
         let mut seen = BTreeSet::new();
         let mut cands = Vec::new();
         let mut det = 0;
+        if let Some(first) = survivors.first() {
+            for c in &first.clauses {
+                *self.clauses.entry(c.clone()).or_insert(0) += 1;
+            }
+        }
         for st in survivors {
             let key = format!("{:?}{:?}{:?}{:?}{:?}{:?}", st.model.conns, st.model.objs, st.model.svcs, st.model.calls, st.model.chans, (&st.model.listeners, &st.model.intro));
             if seen.insert(key) {
